@@ -190,6 +190,8 @@ def install_models(spec):
                     meta['constraints'] = [dbrig.make_constraint(d) for d in m['constraints']]
                 if m.get('comment'):
                     meta['db_table_comment'] = m['comment']
+                if m.get('managed') is False:
+                    meta['managed'] = False
                 attrs['Meta'] = type('Meta', (), meta)
                 out[a['id']].append(type(str(m['name']), (models.Model,), attrs))
     apps.clear_cache()
